@@ -74,16 +74,18 @@ from vlib import scm
 
 MAX_PER_SIG = 3
 
-# Signatures this module raises on the PINNED (unmodified) build.  A case whose sig starts with one of these prefixes is
-# reported through ctx.violation only when the environment has C19_EXTRA_STRICT=1; otherwise it is collected and
-# check_extra emits ONE ctx.note("pending finding <sig>: ...") per signature.
-KNOWN_ON_PINNED = {
-    "uri:roundtrip:http-no-authority": "uri->string drops the scheme of an http / https uri without host (by design: relative reference); lib/chibi/uri.scm:199-201",
-    "uri:roundtrip:empty-port": "string->uri maps an empty port (\"host:\") to #f, uri->string omits the ':' (RFC 3986 6.2.3 normalisation, not a defect); lib/chibi/uri.scm:162-164",
-    "uri:roundtrip:decode-encode": "uri->string with encode? #t passes the whole path through uri-encode, which escapes '/' (\"http://h/a%20b\" -> \"http://h%2fa%20b\"); lib/chibi/uri.scm:206",
-    "json:roundtrip:min-fixnum": "json-read (as patched by C19-json-read-exact-integers) keeps magnitudes <= SEXP_MAX_FIXNUM exact, so -4611686018427387904 (SEXP_MIN_FIXNUM, written exactly by json-write) comes back as a flonum; lib/chibi/json.c:54",
-}
+# Round 4 triage (lead's hygiene item): there is no private table of "known" signatures any more.  What the library does BY DESIGN is
+# predicted exactly by the oracle (so a change of that behaviour is still noticed); what is a defect has a fix patch:
+#   uri:roundtrip:http-no-authority  uri->string writes an http / https uri without host as a relative reference (the part after
+#                                    "scheme:"), lib/chibi/uri.scm:199-201: by design -> the oracle expects exactly that string
+#   uri:roundtrip:empty-port         "host:" (empty port) is normalised away (RFC 3986 6.2.3), uri.scm:162-164 -> the oracle expects s without the ':'
+#   uri:roundtrip:decode-encode      uri->string with encode? #t escaped the '/' separators of the path ("http://h/a/b" -> "http://h%2fa%2fb", a
+#                                    different URI: host "h%2fa%2fb", no path): DEFECT against "encoders emit only text the format allows / decoding
+#                                    the encoding returns the value", repaired by fixes/C19-uri-encode-path-segments.patch; the oracle expects the
+#                                    segment-wise escaping (non-canonical escapes such as %7e / %2f inside a segment are normalised by decode? -> expected so)
+KNOWN_ON_PINNED = {}
 
+# json:roundtrip:min-fixnum was listed above until round 4: repaired by fixes/C19-json-read-min-fixnum.patch, now a VIOLATION when it fails.
 # repaired by fixes/C19-*.patch of round 3 (a reappearance is a VIOLATION):
 FIXED_IN_ROUND3 = {
     "utf16:roundtrip:astral": "utf16->string truncates a decoded surrogate pair to 16 bits (U+10000 -> U+0000): `uint16_t ch` holds 0x10000 + ...; lib/scheme/bytevector.stub:213 (assignments :231 :245)",
@@ -496,10 +498,14 @@ def check_uri(ctx, d, rep):
                                ("tel:+1-816-555-1212", "tel", "+1-816-555-1212", None, None), ("news:comp.lang.scheme", "news", "comp.lang.scheme", None, None), ("data:text/plain;base64,aGk=", "data", "text/plain;base64,aGk=", None, None),
                                ("x:a?q#f", "x", None, None, None), ("MAILTO:a@b", "mailto", "a@b", None, None)]:
         cases.append((s, None if (q, f, path) == (None, None, None) and "?" in s else (sch, None, None, None, path, q, f), "basic"))
-    for s in ("http:foo", "http:/foo/bar", "https:foo?x"):
+    want_string = {}
+    for s in ("http:foo", "http:/foo/bar", "https:foo?x", "HTTP:foo"):
         cases.append((s, None, "http-no-authority"))
-    for s in ("http://host:/x", "ftp://h:/"):
+        want_string[s] = s[s.index(":") + 1:]                 # by design: an http(s) uri without host is written as a relative reference
+    for s in ("http://host:/x", "ftp://h:/", "http://u@host:/x?q#f"):
         cases.append((s, None, "empty-port"))
+        a = s.index("://") + 3
+        want_string[s] = s[:a] + s[a:].replace(":/", "/", 1)          # RFC 3986 6.2.3: the empty port is normalised away
     for s, parts, cls in cases:
         exprs.append("(let ((u (string->uri %s))) (if (uri? u) (list (sx (uri->string u)) (uparts u)) (list 'not-a-uri u)))" % sstr(s))
     odd_components = []
@@ -507,10 +513,11 @@ def check_uri(ctx, d, rep):
         for (s, parts, cls), ex, i in zip(cases, exprs, io):
             rep.count("uri", ("string->uri", s))
             lower = s if ":" not in s else s[:s.index(":")].lower() + s[s.index(":"):]
+            lower = want_string.get(s, lower)
             wstr = xs(lower.encode())
             rp = replay(L, "(let ((u (string->uri %s))) (list (uri->string u) (uri-scheme u) (uri-user u) (uri-host u) (uri-port u) (uri-path u) (uri-query u) (uri-fragment u)))" % sstr(s))
             if bad(i) or i is None or not i.startswith("(" + wstr + " "):
-                rep.violation("uri:roundtrip:" + cls, input=s, expected=lower, observed=i, replay=rp, why="(uri->string (string->uri s)) is not s")
+                rep.violation("uri:roundtrip:" + cls, input=s, expected=lower, observed=i, replay=rp, why="(uri->string (string->uri s)) is not s" if s not in want_string else "(uri->string (string->uri s)) is not the documented normalisation of s")
                 continue
             if parts is None:
                 continue
@@ -557,8 +564,9 @@ def check_uri(ctx, d, rep):
     case("uri:string->path-uri", '(uparts (string->path-uri \'http "/p?a=b&c=d" #f #t))', '(http #f #f #f "/p" (("a" . "b") ("c" . "d")) #f)')
     case("uri:string->path-uri", '(uparts (string->uri "http://h/p?a=%20b&c=d" #t #t))', '(http #f "h" #f "/p" (("a" . " b") ("c" . "d")) #f)')
     case("uri:uri-has-scheme?", '(list (uri-has-scheme? "http://a/") (uri-has-scheme? "/a/b") (uri-has-scheme? "a:b") (uri-has-scheme? "a/b:c"))', "(#t #f #t #f)")
-    for s in ("http://h/a%20b", "ftp://h/%7euser/x%2fy", "x://h/p#f%23g"):
-        case("uri:roundtrip:decode-encode", "(sx (uri->string (string->uri %s #t) #t))" % sstr(s), xs(s.encode()), inp=s)
+    for s, want in (("http://h/a%20b", None), ("x://h/p#f%23g", None), ("http://h/a/b/c", None), ("http://h/", None), ("http://h", None), ("http://h/a%20b/c%3fd/?q#f%2f", None), ("http://h//x/", None),
+                    ("http://u%40x@h:8/p%23", None), ("ftp://h/%7euser/x%2fy", "ftp://h/~user/x/y")):      # last: %7e and %2f are not canonical / not representable after decode?: normalised
+        case("uri:roundtrip:decode-encode", "(sx (uri->string (string->uri %s #t) #t))" % sstr(s), xs((want or s).encode()), inp=s)
     for ref, base, want in [("g", "http://a/b/c/d;p?q", "http://a/b/c/g"), ("/g", "http://a/b/c/d;p?q", "http://a/g"), ("g:h", "http://a/b/c/d;p?q", "g:h"), ("g", "http://a/b/c/", "http://a/b/c/g"),
                             ("http://x/y?z#w", "http://a/b", "http://x/y?z#w"), ("g/h", "http://a:8/b/c", "http://a:8/b/g/h")]:
         case("uri:resolve", "(let ((r (uri-resolve %s %s))) (sx (if (uri? r) (uri->string r) r)))" % (sstr(ref), sstr(base)), xs(want.encode()), inp="%s against %s" % (ref, base))
@@ -962,9 +970,7 @@ def check_extra(ctx, d):
     check_json_reader(ctx, d, rep)
     folded = check_mime(ctx, d, rep)
     viol = ", ".join("%s x%d" % kv for kv in sorted(rep.per_sig.items())) or "none"
-    for sig, kw in sorted(rep.pending.items()):
-        ctx.note("pending finding %s: %d cases, e.g. %s -> %s (expected %s)" % (sig, rep.per_sig[sig], str(kw.get("input"))[:300], str(kw.get("observed"))[:300], str(kw.get("expected"))[:300]))
-    ctx.note("c19_extra (K-outer, Python oracle, no model): cases per library: %s; disagreements by signature (at most %d recorded each; those matching KNOWN_ON_PINNED are notes unless C19_EXTRA_STRICT=1): %s; "
+    ctx.note("c19_extra (K-outer, Python oracle, no model): cases per library: %s; disagreements by signature (at most %d recorded each): %s; "
              "RFC 2047 headers folded into several encoded words: %d (text back unchanged: %d, error: %d; not asserted); "
              "URIs whose string round trip holds but whose components differ from RFC 3986 in the classes left unasserted (empty path before ?/#, ? inside fragment): %d; "
              "uri-with-port reachable through (chibi uri): %s"
